@@ -116,7 +116,7 @@ type trafX struct {
 	track uint32
 	base  uint64
 	truns [][]uint32
-	cto0  int32
+	cto0  int32 // composition time offset of the first sample of the traf (in whichever trun it sits)
 }
 
 // mkMoofX: a moof with the given trafs in the given order. Sample data is 4 bytes per sample, laid out in
@@ -131,13 +131,21 @@ func mkMoofX(seq uint32, trafs []trafX, mdatHdr int, doffSkew int32) (moofBytes 
 		_ = traf.AddChild(mp4.CreateTfhd(t.track))
 		_ = traf.AddChild(mp4.CreateTfdt(t.base))
 		d := trafT{track: t.track, base: t.base}
+		firstSample := true // the first sample of the traf: it may sit behind empty truns
 		for i, durs := range t.truns {
 			tr := mp4.CreateTrun(0)
+			if t.cto0 < 0 {
+				tr.Version = 1 // signed composition time offsets
+			}
 			for j, du := range durs {
 				cto := int32(0)
-				if i == 0 && j == 0 {
+				switch {
+				case firstSample:
 					cto = t.cto0
 					d.cto0 = t.cto0
+					firstSample = false
+				case t.cto0 != 0:
+					cto = int32(11 + 3*j + i) // the other samples have offsets of their own
 				}
 				tr.AddSample(mp4.Sample{Flags: 0x02000000, Dur: du, Size: 4, CompositionTimeOffset: cto})
 				nsamples++
